@@ -435,7 +435,8 @@ class SpecEval(object):
 
     def resolve(self, v):
         if isinstance(v, Ref):
-            return self.heap[v.loc]
+            o = self.heap[v.loc]
+            return o
         if isinstance(v, View):
             base = self.heap[v.loc]
             return AV(z3.Select(base.term, v.row), base.shape[1:], base.elem)
@@ -515,6 +516,8 @@ class SpecEval(object):
     def ev_Subscript(self, n):
         v = self.ev(n.value)
         sl = n.slice
+        if isinstance(v, ListObj):
+            v = tuple(v.items)
         if isinstance(v, tuple):
             k = self.ev(sl)
             k = z3.simplify(to_z3(k))
@@ -625,8 +628,15 @@ class SpecEval(object):
                 raise ContractError('old() not available here')
             sub = SpecEval(self.th, self.old_env, self.old_heap, self.old_env, self.old_heap, self.preds, self.bound)
             return sub.ev(n.args[0])
+        if f == 'implies' and len(n.args) == 2:
+            a0 = as_bool(self.ev(n.args[0]))
+            if z3.is_false(z3.simplify(a0)):
+                return z3.BoolVal(True)          # lazily: the consequent may not even be well-formed (e.g. result[1] of a 1-element list)
+            return z3.Implies(a0, as_bool(self.ev(n.args[1])))
         args = [self.ev(a) for a in n.args]
         if f == 'len':
+            if isinstance(args[0], ListObj):
+                return z3.IntVal(len(args[0].items))
             return args[0].shape[0] if isinstance(args[0], AV) else z3.IntVal(len(args[0]))
         if f == 'rows':
             return args[0].shape[0]
